@@ -102,7 +102,7 @@ pub fn decode_script(data: &[u8]) -> Option<SetScript> {
         // the rest of the input drives the subdivision script
         let mut ops = Vec::new();
         while !u.is_empty() && ops.len() < 60 {
-            ops.push((u.arbitrary()?, u.int_in_range(0..=9u8)?));
+            ops.push((u.arbitrary()?, u.int_in_range(0..=10u8)?));
         }
         Ok(SetScript { root_kind, root, ops, overlaps, dups, perm_seed, deep })
     })();
